@@ -49,11 +49,16 @@ fn run23(ctx: &mut Ctx) {
                 if !a.reject { let st = Style::random(rng); let r = render(rng, &p.stmts, &st); if let Ok(Ok(o)) = crate::asmutil::asm(&r.text, true) { g = GenObj { stmts: p.stmts, r, a, obj: o, debug: true }; ctx.count("programs.with-repeated-label"); } }
             }
         }
+        // a file that declares externals keeps its label table (with the labels' source positions) even when assembled without
+        // debug symbols: half of those programs are queried on that table
+        if g.a.labels.values().any(|x| x.1) && rng.bool() {
+            if let Ok(Ok(o)) = crate::asmutil::asm(&g.r.text, false) { if o.symbol_table().is_some() { g.obj = o; g.debug = false; ctx.count("programs.assembled-without-debug-symbols"); } }
+        }
         ctx.eval();
         if g.a.labels.is_empty() { ctx.count("programs.without-labels"); return; }
         ctx.nontrivial_str(&g.r.text);
         let case = || Json::obj().set("source", g.r.text.as_str());
-        let Some(sym) = g.obj.symbol_table() else { ctx.violation("no-symbol-table", "assemble_debug returned no symbol table", case()); return };
+        let Some(sym) = g.obj.symbol_table() else { ctx.violation("no-symbol-table", "the assembled object has no symbol table", case()); return };
         // ambiguous: external and defined at x0000
         let by_addr: BTreeMap<u16, BTreeSet<String>> = { let mut m: BTreeMap<u16, BTreeSet<String>> = BTreeMap::new(); for (n, (a, _)) in &g.a.labels { m.entry(*a).or_default().insert(n.clone()); } m };
         for (name, (addr, ext)) in &g.a.labels {
@@ -98,7 +103,7 @@ fn run23(ctx: &mut Ctx) {
 }
 fn guard23(m: &Merged, _t: Tier) -> Vec<String> {
     let mut out = vec![];
-    for k in ["queries.as-written", "queries.upper", "queries.lower", "queries.random-case", "queries.absent", "labels.external", "labels.sharing-an-address", "labels.on-end", "labels.on-external-line", "programs.with-repeated-label"] { need(m, &mut out, k, 50); }
+    for k in ["queries.as-written", "queries.upper", "queries.lower", "queries.random-case", "queries.absent", "labels.external", "labels.sharing-an-address", "labels.on-end", "labels.on-external-line", "programs.with-repeated-label", "programs.assembled-without-debug-symbols"] { need(m, &mut out, k, 50); }
     out
 }
 
